@@ -123,14 +123,14 @@ func (pat Pattern) match(s string, start int, cap *Captures, fixed bool) bool {
 			}
 			if len(prefix) > 0 {
 				i := strings.Index(s[si:], prefix)
-				if i < 0 {
+				if i < 0 || (fixed && i > 0) {
 					return false
 				}
 				_ = t && trace.Println("skip from", si, "to", si+i)
 				si += i
 			}
 		}
-		if !matched {
+		if !matched && !(fixed && si > start) {
 			if cap2 != nil {
 				cap2[0] = int32(si) // Save 0
 			}
